@@ -135,6 +135,15 @@ def replay_closed(pyhf, backend, precision, chunk, seed):
             tags = [f"opt:{o}", f"grad:{g}", f"stitch:{st}", f"fam:{case['fam']}"]
             det = {"case": {k: case[k] for k in ("fam", "s", "b", "n", "mu", "lo", "muhat")}, "config": [o, g, st]}
             try:
+                if out["n"] % 3 == 0:
+                    # history on the OPTIMISER object: a deliberately coarse fit (per-call tolerance / iteration options) comes first;
+                    # the fit that follows uses the optimiser's own settings again and must still attain the optimum
+                    try:
+                        pyhf.infer.mle.fit(data, model, do_grad=g, do_stitch=st, tolerance=0.3 if o == "scipy" else 10.0)
+                    except Exception:  # noqa: BLE001   (a coarse fit may legitimately report failure)
+                        pass
+                    tr.buf.clear()
+                    out["coarse_first"] = out.get("coarse_first", 0) + 1
                 pars, fun = pyhf.infer.mle.fit(data, model, return_fitted_val=True, do_grad=g, do_stitch=st)
                 tr.flush(pyhf, model, data, "fit")
                 out["fits"] += 1
